@@ -124,6 +124,10 @@ func VerifH_gzip_http() {
 			Method: "POST", URL: &url.URL{Path: "/aa/zz"}, Header: h,
 			Body: vfNopCloser{&vfWholeReader{data: body}}, ContentLength: int64(len(body)), ProtoMajor: 1, ProtoMinor: 1,
 		}
+		if call == 0 && vfBool() {
+			r.ContentLength = -1 // chunked / HTTP/2 without content-length
+			vfCover("unknown-length")
+		}
 		w := newFakeRW()
 		mux.ServeHTTP(w, r)
 		w.finish()
@@ -174,6 +178,31 @@ func VerifH_gzip_http() {
 			vfCover("second-call")
 		}
 	}
+	vfGzipPoolProbe(mux)
+}
+
+// vfGzipPoolProbe: after the calls above, two compressions in flight at the same time (what two
+// concurrent requests do) must get two different pooled writers: each output decompresses to its
+// own input. A writer returned to its pool twice would be handed to both.
+func vfGzipPoolProbe(mux *Mux) {
+	cz := mux.opts.compressors["gzip"]
+	if cz == nil {
+		vfFail("no gzip compressor registered")
+	}
+	var b1, b2 bytes.Buffer
+	w1, err1 := cz.Compress(&b1)
+	w2, err2 := cz.Compress(&b2)
+	if err1 != nil || err2 != nil {
+		vfFail("Compress failed")
+	}
+	w1.Write([]byte("one"))
+	w2.Write([]byte("two!"))
+	w1.Close()
+	w2.Close()
+	d1, e1 := vfGunzip(b1.Bytes())
+	d2, e2 := vfGunzip(b2.Bytes())
+	vfCheck(e1 == nil && e2 == nil && string(d1) == "one" && string(d2) == "two!", "two compressions in flight at once do not each produce their own stream (a pooled gzip writer is shared)")
+	vfCover("pool-probe")
 }
 
 // vfSymbolicSecond: whether the second call of VerifH_gzip_http ranges over the full menu.
@@ -256,4 +285,5 @@ func VerifH_gzip_grpc() {
 			vfCover("second-call")
 		}
 	}
+	vfGzipPoolProbe(mux)
 }
